@@ -6,6 +6,8 @@ import (
 	"errors"
 	"fmt"
 	"io"
+	"net"
+	"os"
 	"sync"
 	"sync/atomic"
 	"time"
@@ -33,9 +35,12 @@ type c18Scen struct {
 	Mode   string  `json:"mode,omitempty"` // stub (default) | rate | fail
 	IvMs   int     `json:"iv,omitempty"`
 	SM     bool    `json:"sm,omitempty"`
+	// ErrKind: what the failing Ping returns: "" = a plain error, "timeout" = a net.Error whose Timeout() is true
+	ErrKind string `json:"errkind,omitempty"`
 }
 
 type stubTransport struct {
+	errKind string
 	w      *tr.Writer
 	t0     time.Time
 	failAt int
@@ -63,6 +68,9 @@ func (s *stubTransport) Ping() error {
 		s.onPing(i)
 	}
 	if !ok {
+		if s.errKind == "timeout" {
+			return &net.OpError{Op: "write", Net: "tcp", Err: os.ErrDeadlineExceeded} // an expired write deadline
+		}
 		return errors.New("injected ping failure")
 	}
 	return nil
@@ -77,7 +85,7 @@ func c18Stub(w *tr.Writer, tid int, sc c18Scen) error {
 	iv := 12 * time.Millisecond
 	quit := make(chan struct{})
 	var once sync.Once
-	st := &stubTransport{w: w, t0: time.Now(), failAt: sc.FailAt}
+	st := &stubTransport{w: w, t0: time.Now(), failAt: sc.FailAt, errKind: sc.ErrKind}
 	closeQuit := func(judged bool) {
 		once.Do(func() {
 			if judged {
@@ -261,6 +269,13 @@ func runC18(args []string) error {
 		seen[string(ln)] = true
 		tid++
 		scens = append(scens, tidScen{tid, ln})
+		var sc c18Scen
+		if json.Unmarshal(ln, &sc) == nil && sc.FailAt > 0 {
+			sc.ErrKind = "timeout"
+			b, _ := json.Marshal(sc)
+			tid++
+			scens = append(scens, tidScen{tid, b})
+		}
 	}
 	// real-client runs: intervals, write failure at the k-th keepalive
 	add := func(sc c18Scen) {
